@@ -90,6 +90,14 @@ def c03_boundary():
                 tcancel = 1000 + (T0 * (2 ** (k - 1) - 1) if k > 1 else 0) + 100
                 scripts.append(dict(base, events=[sub, ["C", tcancel, 0], far_end([sub])], rules=rules,
                                     tag=f"piggy-after-cancel@copy{k}:{at}:{factor}:{mr}"))
+                # Reset / ACK for a request whose pipe has already ended (cancelled by the application),
+                # followed by another CON to the same peer: the exchange must still be closed properly
+                for do in ("rst", "ack"):
+                    rules = [{"remote": 0, "mtype": "CON", "nth": k, "after": 555, "do": do},
+                             {"remote": 0, "mtype": "CON", "nth": k + 1, "after": 300, "do": "piggy", "body": 4}]
+                    sub2 = submit(tcancel + 2000, 1, 0, rel=True, maxretr=mr, tuning=[at, factor])
+                    scripts.append({"draws": [T0, T0], "events": [sub, ["C", tcancel, 0], sub2, far_end([sub, sub2])],
+                                    "rules": rules, "tag": f"{do}-after-cancel-then-next@copy{k}:{at}:{factor}:{mr}"})
                 for do in ("wrongmid", "wrongsrc"):
                     for ptype in ("ACK", "RST"):
                         rules = [{"remote": 0, "mtype": "CON", "nth": k, "after": 777, "do": do, "ptype": ptype}]
